@@ -466,6 +466,18 @@ func (s *Session) Obligation(id, kind string, cond *Term, pos, msg string) bool 
 			if ans != "sat" && staged != nil && staged.EngineConfirmed {
 				ans = "sat"
 			}
+			if s.r.mode == ModeReal && ans != "unsat" && !already && (staged == nil || !staged.EngineConfirmed) && !s.solver.dead {
+				// tier R could neither prove the obligation nor confirm a model: search for a
+				// counter-example with the integer inputs concretised (the nonlinear terms become
+				// linear); only concretely confirmed models are used, so this cannot create alarms
+				s.endQuery()
+				if c := s.concretiseSearch(extra, id, kind, pos, msg); c != nil {
+					staged = c
+					ans = "sat"
+					s.res.H.confirmed.Store(id, true)
+				}
+				s.solver.Send("(push 1)\n")
+			}
 			if staged != nil && staged.EngineConfirmed {
 				s.res.H.confirmed.Store(id, true)
 			}
@@ -696,4 +708,62 @@ func (s *Session) concreteConfirms(c *Candidate) bool {
 	c.EngineConfirmed = ok
 	c.EngineOut = out
 	return ok
+}
+
+// concretiseSearch: counter-example search by concretising the integer inputs (see Obligation).
+func (s *Session) concretiseSearch(extra, id, kind, pos, msg string) *Candidate {
+	var ints []Nondet
+	for _, nd := range s.ex.nondets {
+		if nd.Sort.Kind == KInt {
+			if _, ok := s.r.emitted[nd.T.ID]; ok {
+				ints = append(ints, nd)
+			}
+		}
+	}
+	if len(ints) == 0 {
+		return nil
+	}
+	blockers := ""
+	for round := 0; round < 8; round++ {
+		s.solver.Send("(push 1)\n" + extra + blockers + s.r.AxiomText(0, 1))
+		s.res.Queries++
+		a := s.solver.CheckSat(5 * time.Second)
+		if a != "sat" {
+			if !s.solver.dead {
+				s.solver.Send("(pop 1)\n")
+			}
+			return nil
+		}
+		var names []string
+		for _, nd := range ints {
+			names = append(names, s.r.emitted[nd.T.ID])
+		}
+		vals := s.solver.GetValues(names)
+		s.solver.Send("(pop 1)\n")
+		var eqs []string
+		for _, n := range names {
+			if v, ok := vals[n]; ok {
+				eqs = append(eqs, "(= "+n+" "+v+")")
+			}
+		}
+		if len(eqs) == 0 {
+			return nil
+		}
+		s.solver.Send("(push 1)\n" + extra + s.r.AxiomText(0, 3) + "(assert (and " + strings.Join(eqs, " ") + "))\n")
+		s.res.Queries++
+		a = s.solver.CheckSat(15 * time.Second)
+		if a == "sat" {
+			c := s.extractCandidate(s.solver, id, kind, pos, msg)
+			if s.concreteConfirms(c) {
+				s.solver.Send("(pop 1)\n")
+				return c
+			}
+		}
+		if s.solver.dead {
+			return nil
+		}
+		s.solver.Send("(pop 1)\n")
+		blockers += "(assert (not (and " + strings.Join(eqs, " ") + ")))\n"
+	}
+	return nil
 }
